@@ -229,8 +229,8 @@ def run(ctx):
                                                     bool(ifs and hq.find(ifs[0]["then"], lambda x: x.get("k") == "Break")))
             ub, uy = got.get("UptoBlocks", (None, False)), got.get("UptoBytes", (None, False))
             okb = got.get("All") == (None, False) and ub[1] and uy[1] and \
-                (ub[0] or "").startswith("(n <= (") and ".block_counter - @" in (ub[0] or "") and \
-                (uy[0] or "").startswith("(n <= (ruzstd::decoding::decode_buffer::DecodeBuffer::len(") and \
+                (ub[0] or "").startswith("($1@BlockDecodingStrategy::UptoBlocks.0 <= (") and ".block_counter - @" in (ub[0] or "") and \
+                (uy[0] or "").startswith("($1@BlockDecodingStrategy::UptoBytes.0 <= (ruzstd::decoding::decode_buffer::DecodeBuffer::len(") and \
                 ".decoder_scratch.buffer) - @DecodeBuffer::len))" in (uy[0] or "")
             ctx.check(okb, RP, "decode_blocks::budget-conditions", b["file"],
                       "stop when blocks decoded since entry >= n (UptoBlocks) / bytes buffered since entry >= n (UptoBytes)", observed=got)
